@@ -214,11 +214,12 @@ type cluster struct {
 	trailing uint64
 	maxAE    int
 	noPV     map[int]bool // servers running with pre-vote disabled
+	legacy   bool         // the network strips ID and Addr from AppendEntries / InstallSnapshot headers (a leader of an older release: only the deprecated Leader field names it)
 	codes    map[int]int  // result code per finished call
 	dbgLines []string
-	pv2      bool         // every server runs protocol version 2
-	track    bool         // commit-tracking log stores with RestoreCommittedLogs
-	slowFSM  bool         // some FSMs take a few virtual ms per Apply
+	pv2      bool // every server runs protocol version 2
+	track    bool // commit-tracking log stores with RestoreCommittedLogs
+	slowFSM  bool // some FSMs take a few virtual ms per Apply
 	delayMs  int
 	dropPct  int
 	dupPct   int
@@ -345,6 +346,18 @@ func (c *cluster) forward(from, to int, rpc raft.RPC) {
 	target := c.nodes[to]
 	var resp interface{}
 	var err error
+	if c.legacy {
+		switch a := rpc.Command.(type) {
+		case *raft.AppendEntriesRequest:
+			b := *a
+			b.RPCHeader.ID, b.RPCHeader.Addr = nil, nil
+			rpc.Command = &b
+		case *raft.InstallSnapshotRequest:
+			b := *a
+			b.RPCHeader.ID, b.RPCHeader.Addr = nil, nil
+			rpc.Command = &b
+		}
+	}
 	switch a := rpc.Command.(type) {
 	case *raft.AppendEntriesRequest:
 		c.noteSender(from, a.Term)
@@ -741,8 +754,17 @@ func runClusterCase(rng *rand.Rand, thorough bool, out *bufio.Writer, st *stats,
 	case 1:
 		runShutdownLitmus(rng, out, st, caseNo)
 		return
+	case 3:
+		if rng.Intn(2) == 0 {
+			runRejoinLitmus(rng, out, st, caseNo)
+			return
+		}
 	case 2:
-		runJoinLitmus(rng, out, st, caseNo)
+		if rng.Intn(4) == 0 {
+			runPairLitmus(rng, out, st, caseNo)
+		} else {
+			runJoinLitmus(rng, out, st, caseNo)
+		}
 		return
 	}
 	h := &hist{t0: time.Now(), seenS: map[string]bool{}}
@@ -757,6 +779,7 @@ func runClusterCase(rng *rand.Rand, thorough bool, out *bufio.Writer, st *stats,
 	idIsAddr = c.pv2
 	defer func() { idIsAddr = false }()
 	st.Hist[fmt.Sprintf("flavour pv2=%v commit-tracking=%v slow-fsm=%v", c.pv2, c.track, c.slowFSM)]++
+	c.legacy = !c.pv2 && rng.Intn(6) == 0
 	c.batchCh = rng.Intn(3) == 0
 	c.autoSnap = rng.Intn(3) == 0
 	c.trailing = []uint64{0, 0, 1, 11}[rng.Intn(4)] // default 3, or 0, or 10
@@ -769,7 +792,7 @@ func runClusterCase(rng *rand.Rand, thorough bool, out *bufio.Writer, st *stats,
 			}
 		}
 	}
-	st.Hist[fmt.Sprintf("options batch-apply-ch=%v auto-snapshot=%v trailing=%d max-append=%d no-pre-vote=%d", c.batchCh, c.autoSnap, c.trailing, c.maxAE, len(c.noPV))]++
+	st.Hist[fmt.Sprintf("options batch-apply-ch=%v auto-snapshot=%v trailing=%d max-append=%d no-pre-vote=%d legacy-headers=%v", c.batchCh, c.autoSnap, c.trailing, c.maxAE, len(c.noPV), c.legacy)]++
 	_, c.inj = raft.NewInmemTransportWithTimeout("inj", 80*time.Millisecond)
 	mono := rng.Intn(3) == 0
 	for i := 1; i <= nsrv; i++ {
@@ -1688,6 +1711,203 @@ func runJoinLitmus(rng *rand.Rand, out *bufio.Writer, st *stats, caseNo int) {
 		if !n.up {
 			c.startNodeP(n)
 		}
+	}
+	h.rec("HEALALL %d", h.now())
+	h.rec("Q %d", h.now())
+	time.Sleep(15 * time.Second)
+	for k := 0; k < 3; k++ {
+		if l := c.leader(); l != nil {
+			c.apply(l, "a")
+		}
+		time.Sleep(300 * time.Millisecond)
+	}
+	time.Sleep(2 * time.Second)
+	c.wg.Wait()
+	c.dump("final")
+	c.mu.Lock()
+	c.stopped = true
+	c.mu.Unlock()
+	for _, n := range c.nodes[1:] {
+		if n.up {
+			c.crash(n)
+		}
+	}
+	h.mu.Lock()
+	lines := h.lines
+	h.mu.Unlock()
+	fmt.Fprintf(out, "CL %d %d\n", caseNo, nsrv)
+	fmt.Fprintln(out, strconv.Itoa(len(lines))+" ; "+strings.Join(lines, " ; "))
+	st.Cases++
+	st.Distinct++
+}
+
+// runPairLitmus (C07/C01): one voter and one non-voter.  Leadership is "transferred" to the non-voter
+// (LeadershipTransferToServer does not look at suffrage; the target gets TimeoutNow and campaigns
+// without a pre-vote): it must never be elected, and the voter keeps or regains leadership.
+func runPairLitmus(rng *rand.Rand, out *bufio.Writer, st *stats, caseNo int) {
+	h := &hist{t0: time.Now(), seenS: map[string]bool{}}
+	nsrv := 2
+	c := &cluster{rng: rng, h: h, blocked: map[[2]int]bool{}, holdMs: map[[2]int]int{}, delayMs: 1 + rng.Intn(3)}
+	_, c.inj = raft.NewInmemTransportWithTimeout("inj", 80*time.Millisecond)
+	c.nodes = []*cnode{nil}
+	for i := 1; i <= nsrv; i++ {
+		c.nodes = append(c.nodes, &cnode{id: i, addr: addrOf(i), st: &cstore{InmemStore: raft.NewInmemStore()}, snaps: &snapStore{c: &ctl{failAt: -1, crashAt: -1}}})
+	}
+	startAsNonvoter := rng.Intn(2) == 0
+	cfg := raft.Configuration{Servers: []raft.Server{{Suffrage: raft.Voter, ID: sidOf(1), Address: addrOf(1)}}}
+	if startAsNonvoter {
+		cfg.Servers = append(cfg.Servers, raft.Server{Suffrage: raft.Nonvoter, ID: sidOf(2), Address: addrOf(2)})
+	} else {
+		cfg.Servers = append(cfg.Servers, raft.Server{Suffrage: raft.Voter, ID: sidOf(2), Address: addrOf(2)})
+	}
+	h.rec("C %d 0", nsrv)
+	for _, n := range c.nodes[1:] {
+		c.startNodeP(n)
+	}
+	_ = c.nodes[1].r.BootstrapCluster(cfg).Error()
+	time.Sleep(500 * time.Millisecond)
+	writes := func(m int) {
+		for k := 0; k < m; k++ {
+			if l := c.leader(); l != nil {
+				c.apply(l, "a")
+			}
+			time.Sleep(time.Duration(3+rng.Intn(20)) * time.Millisecond)
+		}
+	}
+	writes(2 + rng.Intn(4))
+	if !startAsNonvoter {
+		// make server 1 the leader, then demote 2
+		for try := 0; try < 5; try++ {
+			l := c.leader()
+			if l == nil {
+				time.Sleep(200 * time.Millisecond)
+				continue
+			}
+			if l.id != 1 {
+				_ = l.r.LeadershipTransferToServer(sidOf(1), addrOf(1)).Error()
+				time.Sleep(300 * time.Millisecond)
+				continue
+			}
+			_ = l.r.DemoteVoter(sidOf(2), 0, time.Second).Error()
+			break
+		}
+		time.Sleep(200 * time.Millisecond)
+	}
+	for round, rounds := 0, 1+rng.Intn(3); round < rounds; round++ {
+		if l := c.leader(); l != nil && l.id == 1 {
+			two, twoAddr := sidOf(2), addrOf(2)
+			c.callWith(l, "t", func(r *raft.Raft) error { return r.LeadershipTransferToServer(two, twoAddr).Error() })
+			st.Hist["pair-litmus-transfer-to-non-voter"]++
+		}
+		for k := 0; k < 8; k++ {
+			time.Sleep(100 * time.Millisecond)
+			c.sample()
+		}
+		writes(1 + rng.Intn(3))
+	}
+	h.rec("HEALALL %d", h.now())
+	h.rec("Q %d", h.now())
+	time.Sleep(15 * time.Second)
+	for k := 0; k < 3; k++ {
+		if l := c.leader(); l != nil {
+			c.apply(l, "a")
+		}
+		time.Sleep(300 * time.Millisecond)
+	}
+	time.Sleep(2 * time.Second)
+	c.wg.Wait()
+	c.dump("final")
+	c.mu.Lock()
+	c.stopped = true
+	c.mu.Unlock()
+	for _, n := range c.nodes[1:] {
+		if n.up {
+			c.crash(n)
+		}
+	}
+	h.mu.Lock()
+	lines := h.lines
+	h.mu.Unlock()
+	fmt.Fprintf(out, "CL %d %d\n", caseNo, nsrv)
+	fmt.Fprintln(out, strconv.Itoa(len(lines))+" ; "+strings.Join(lines, " ; "))
+	st.Cases++
+	st.Distinct++
+}
+
+// runRejoinLitmus (C14): a follower is cut off for a while and reconnects in stages - first to the
+// other follower(s), a little later to the leader - on an otherwise calm network, optionally with a
+// leader whose requests carry only the deprecated Leader field (an older release).  It must rejoin
+// without unseating the leader or moving the term; while cut off its term must not move.
+func runRejoinLitmus(rng *rand.Rand, out *bufio.Writer, st *stats, caseNo int) {
+	h := &hist{t0: time.Now(), seenS: map[string]bool{}}
+	nsrv := 3
+	if rng.Intn(3) == 0 {
+		nsrv = 5
+	}
+	c := &cluster{rng: rng, h: h, blocked: map[[2]int]bool{}, holdMs: map[[2]int]int{}, delayMs: 1 + rng.Intn(3)}
+	c.legacy = rng.Intn(2) == 0
+	_, c.inj = raft.NewInmemTransportWithTimeout("inj", 80*time.Millisecond)
+	c.nodes = []*cnode{nil}
+	var cfg raft.Configuration
+	for i := 1; i <= nsrv; i++ {
+		c.nodes = append(c.nodes, &cnode{id: i, addr: addrOf(i), st: &cstore{InmemStore: raft.NewInmemStore()}, snaps: &snapStore{c: &ctl{failAt: -1, crashAt: -1}}})
+		cfg.Servers = append(cfg.Servers, raft.Server{Suffrage: raft.Voter, ID: sidOf(i), Address: addrOf(i)})
+	}
+	h.rec("C %d 0", nsrv)
+	for _, n := range c.nodes[1:] {
+		c.startNodeP(n)
+	}
+	_ = c.nodes[1].r.BootstrapCluster(cfg).Error()
+	time.Sleep(500 * time.Millisecond)
+	for round, rounds := 0, 1+rng.Intn(3); round < rounds; round++ {
+		l := c.leader()
+		if l == nil {
+			time.Sleep(300 * time.Millisecond)
+			continue
+		}
+		writes := rng.Intn(3)
+		for k := 0; k < writes; k++ {
+			c.apply(l, "a")
+			time.Sleep(10 * time.Millisecond)
+		}
+		x := c.nodes[1+rng.Intn(nsrv)]
+		if x.id == l.id {
+			continue
+		}
+		c.isolate(x.id, true)
+		idle := rng.Intn(2) == 0 // nothing is written while it is away: its log stays equal to the others'
+		for k, m := 0, 3+rng.Intn(6); k < m; k++ {
+			time.Sleep(100 * time.Millisecond)
+			if !idle && k%2 == 0 {
+				c.apply(l, "a")
+			}
+			c.sample()
+		}
+		// back in touch with the other followers first ...
+		c.mu.Lock()
+		for o := 1; o <= nsrv; o++ {
+			if o != x.id && o != l.id {
+				delete(c.blocked, [2]int{x.id, o})
+				delete(c.blocked, [2]int{o, x.id})
+			}
+		}
+		c.mu.Unlock()
+		c.h.rec("UNISOL %d %d", x.id, c.h.now())
+		term0 := l.r.CurrentTerm()
+		t0 := c.h.now()
+		time.Sleep(time.Duration(20+rng.Intn(150)) * time.Millisecond)
+		// ... then with the leader
+		c.mu.Lock()
+		c.blocked = map[[2]int]bool{}
+		c.mu.Unlock()
+		time.Sleep(500 * time.Millisecond)
+		l2 := c.leader()
+		lid, term1 := 0, uint64(0)
+		if l2 != nil {
+			lid, term1 = l2.id, l2.r.CurrentTerm()
+		}
+		c.h.rec("REJOIN %d %d %d %d %d %d %d", x.id, t0, l.id, term0, c.h.now(), lid, term1)
+		st.Hist[fmt.Sprintf("rejoin-litmus legacy-headers=%v idle=%v", c.legacy, idle)]++
 	}
 	h.rec("HEALALL %d", h.now())
 	h.rec("Q %d", h.now())
